@@ -233,7 +233,9 @@ def multiline(s, quote_with=("'", "'")):
                 ),
                 s.splitlines(),
             )
-        ).rstrip(" \n\\"),
+        )[
+            : -len(" \\\n")
+        ],  # drop only the continuation appended after the last line, never characters of the text itself
     )
 
 
